@@ -140,3 +140,33 @@ def scalar_attrs(prog):
             out.add(name)
     _scalar_cache[id(prog)] = out
     return out
+
+
+INIT_PARAM_EXCEPTIONS = {
+    # TemplateAttack matches fixed templates: the class documents that no attack selection function is used (the parameter exists for
+    # signature symmetry with TemplateDPAAttack and is replaced by an identity); confirmed by reading
+    ('scared.analysis.template:TemplateAttack.__init__', 'selection_function'),
+}
+
+
+def ignored_init_params(prog, module_prefixes):
+    """[(Func, parameter)] constructor parameters that the constructor never reads: configuration accepted and silently dropped"""
+    out = []
+    for f in prog.funcs:
+        if f.name != '__init__' or f.cls is None or not any(f.mod.name.startswith(p) for p in module_prefixes):
+            continue
+        reads = {n.id for n in ast.walk(f.node) if isinstance(n, ast.Name) and isinstance(n.ctx, ast.Load)}
+        if any(isinstance(n, ast.Call) and isinstance(n.func, ast.Name) and n.func.id in ('locals', 'vars') for n in ast.walk(f.node)):
+            continue
+        a = f.node.args
+        if a.kwarg is not None and a.kwarg.arg in reads:
+            pass
+        for p in f.params:
+            if p in ('self', 'cls') or p in reads:
+                continue
+            if a.vararg is not None and p == a.vararg.arg or a.kwarg is not None and p == a.kwarg.arg:
+                continue
+            if (f.key, p) in INIT_PARAM_EXCEPTIONS:
+                continue
+            out.append((f, p))
+    return out
